@@ -199,11 +199,12 @@ func (tx *DynamicFeeTx) SetSignatureValues(chainID, v, r, s *big.Int) {
 
 // Validate performs a stateless validation of the tx fields.
 func (tx DynamicFeeTx) Validate() error {
-	if tx.GasTipCap == nil {
+	// a field that is present on the wire with length 0 decodes to a non-nil pointer to an Int without a value
+	if tx.GasTipCap == nil || tx.GasTipCap.IsNil() {
 		return errorsmod.Wrap(ErrInvalidGasCap, "gas tip cap cannot nil")
 	}
 
-	if tx.GasFeeCap == nil {
+	if tx.GasFeeCap == nil || tx.GasFeeCap.IsNil() {
 		return errorsmod.Wrap(ErrInvalidGasCap, "gas fee cap cannot nil")
 	}
 
